@@ -295,9 +295,9 @@ def replay(case):
                 d.setup("open id=d1 path=" + drv.hx(case["file"]))
             if case.get("v") is not None:
                 r = _word_exact_worker(d, [case["w"]], {"values": [case["v"]], "i": case.get("i")})
-                return any(b[2]["kind"] == case["kind"] for b in r["bad"])
+                return bool(r["bad"])
             r = _word_worker(d, [case["w"]], {"prefix": case["prefix"], "i": case.get("i")})
-            return any(b[2]["kind"] == case["kind"] for b in r["bad"])
+            return bool(r["bad"])
         finally:
             d.close()
     d = drv.Drv(ctx.bin("zwdrv"), case.get("voc", "core"))
@@ -312,7 +312,7 @@ def replay(case):
         else:
             prefix, nin = input_prefix()
             _, bad = check_expr(case["e"], prefix, nin, d.batch(expr_cmds(case["e"], prefix)))
-        return any(b[2]["kind"] == case["kind"] for b in bad)
+        return bool(bad)
     finally:
         d.close()
 
